@@ -169,8 +169,8 @@ PLAN = {
               "malformed families. Every accepted datagram is re-encoded and compared with the input (minus the two "
               "permitted differences). distinct_nontrivial = distinct structural signatures of accepted messages"),
         assumptions=["injectivity is checked directly only for accepted datagrams of <= 24 bytes (it follows from byte identity otherwise)"],
-        quick=[L("dbg", 1, 20000, 16), L("rel", 1, 20000, 16), L("miri", 0, 40, 8, 1500)],
-        thorough=[L("dbg", 2, 300000, 16, 3600), L("rel", 2, 300000, 16, 3600), L("asan", 0, 20000, 8), L("miri", 0, 300, 16, 3600)],
+        quick=[L("dbg", 1, 20000, 16), L("rel", 1, 20000, 16), L("miri", 0, 40, 16, 1500)],
+        thorough=[L("dbg", 2, 300000, 16, 3600), L("rel", 2, 300000, 16, 3600), L("asan", 1, 20000, 8), L("miri", 0, 300, 16, 3600)],
     ),
     "C03": dict(
         level="exploration", design="DESIGN.md#C03",
@@ -178,8 +178,8 @@ PLAN = {
               "(must-accept with fields / must-reject / either) and the crate's result is compared; every panic or abort is a "
               "violation. distinct_nontrivial = distinct (reject class x family x length) and accepted structural signatures"),
         assumptions=["error variants are not pinned; RFC-stricter rejection (version != 1, empty payload after marker, content in 0.00) is allowed"],
-        quick=[L("dbg", 1, 20000, 16), L("rel", 1, 20000, 16), L("asan", 0, 4000, 4), L("miri", 0, 40, 8, 1500)],
-        thorough=[L("dbg", 2, 300000, 16, 3600), L("rel", 2, 300000, 16, 3600), L("asan", 0, 50000, 8), L("asanrel", 0, 50000, 8),
+        quick=[L("dbg", 1, 20000, 16), L("rel", 1, 20000, 16), L("asan", 1, 4000, 4), L("miri", 0, 40, 16, 1500)],
+        thorough=[L("dbg", 2, 300000, 16, 3600), L("rel", 2, 300000, 16, 3600), L("asan", 1, 50000, 8), L("asanrel", 1, 50000, 8),
                   L("miri", 0, 300, 16, 3600)],
     ),
     "C04": dict(
@@ -221,7 +221,7 @@ PLAN = {
               "random code/options/payload, through CoapResponse::new, CoapRequest::from_packet and via the wire; every "
               "HandlingError constructor x every named status x response present/absent x pre-set content format. "
               "distinct_nontrivial = distinct (type, version, token length, mid high byte) + distinct error shapes"),
-        quick=[L("dbg", 1, 1, 16), L("rel", 1, 1, 16), L("miri", 0, 1, 2, 1500)],
+        quick=[L("dbg", 1, 1, 16), L("rel", 1, 1, 16), L("miri", 0, 1, 16, 1500)],
         thorough=[L("dbg", 2, 1, 16, 3600), L("rel", 2, 1, 16, 3600), L("miri", 0, 1, 4, 3600)],
     ),
     "C08": dict(
@@ -231,7 +231,7 @@ PLAN = {
               "overhead+28..1280, strategies {no Block2, early negotiation, size reduction mid-transfer}, several reply option "
               "sets. Oracle: the body the application produced. distinct_nontrivial = distinct (server block size, length mod "
               "size, block count bucket, strategy, option-set size)"),
-        quick=[L("dbg", 1, 300, 16), L("rel", 1, 300, 16), L("miri", 0, 3, 4, 1500)],
+        quick=[L("dbg", 1, 300, 16), L("rel", 1, 300, 16), L("miri", 0, 3, 12, 1500)],
         thorough=[L("dbg", 2, 12000, 16, 3600), L("rel", 2, 12000, 16, 3600), L("asan", 0, 500, 8), L("miri", 0, 15, 8, 3600)],
     ),
     "C09": dict(
@@ -242,7 +242,7 @@ PLAN = {
               "Oracle: the body the client sent. distinct_nontrivial = distinct (block size, length mod size, block count bucket, "
               "abandoned blocks, abandoned size, duplicates?)"),
         assumptions=["a retransmitted FINAL block is message-layer deduplication's job and is not asserted as exactly-once (DESIGN.md C09)"],
-        quick=[L("dbg", 1, 400, 16), L("rel", 1, 400, 16), L("miri", 0, 3, 4, 1500)],
+        quick=[L("dbg", 1, 400, 16), L("rel", 1, 400, 16), L("miri", 0, 3, 12, 1500)],
         thorough=[L("dbg", 2, 15000, 16, 3600), L("rel", 2, 15000, 16, 3600), L("asan", 0, 500, 8), L("miri", 0, 15, 8, 3600)],
     ),
     "C10": dict(
@@ -264,7 +264,7 @@ PLAN = {
               "replies 0..10000 bytes / large options / own Block2; directed far-jump sequences per SZX. Monitors: panic capture "
               "on both entry points, error renderability, buffered-upload length before/after each call (hook) and body handed "
               "over. distinct_nontrivial = distinct (budget bucket, block option shapes, overhead>budget, type, outcome)"),
-        quick=[L("dbg", 1, 6000, 16), L("rel", 1, 6000, 16), L("miri", 0, 12, 4, 1500)],
+        quick=[L("dbg", 1, 6000, 16), L("rel", 1, 6000, 16), L("miri", 0, 12, 12, 1500)],
         thorough=[L("dbg", 2, 150000, 16, 3600), L("rel", 2, 150000, 16, 3600), L("asan", 0, 20000, 8), L("miri", 0, 60, 8, 3600)],
     ),
     "C12": dict(
